@@ -4,7 +4,7 @@
    (error of the denotation, or a NaN / Inf double somewhere in the tree). *)
 From Coq Require Import ZArith List Bool Lia.
 From DG Require Import ProtoWireRef ProtoWireRefProofs ThriftWire ThriftWireProofs ThriftGenericProofs
-                       Json Num Base64 T2J JsonProofs NumProofs Base64Proofs T2JProofs T2JBytes.
+                       Json Num Base64 T2J T2JUnset JsonProofs NumProofs Base64Proofs T2JProofs T2JUnsetProofs T2JBytes.
 Import ListNotations.
 Local Open Scope Z_scope.
 
@@ -126,11 +126,11 @@ Section Leaves.
   Proof. reflexivity. Qed.
 
   Lemma walk_scalar_ok v t r : wf v = true -> is_num_scalar t && (type_of v =? t) = true ->
-    walk_scalar fd o t (encode v ++ r) = walk_spec fd (json_of o (DScalar t) v) r.
+    walk_scalar fd o t (encode v ++ r) = walk_spec fd (json_ofw o (DScalar t) v) r.
   Proof.
     intros Hw Ht. apply andb_true_iff in Ht. destruct Ht as [Hn Ht]. apply Z.eqb_eq in Ht. subst t.
     destruct v; cbn [type_of] in *; try discriminate Hn; cbn [encode wf] in Hw |- *;
-      unfold walk_spec, spec_text_fd; cbn [json_of jexp_finite to_json_fd json_print].
+      unfold walk_spec, spec_text_fd; cbn [json_ofw jexp_finite to_json_fd json_print].
     - rewrite ws_bool. cbn [app]. destruct (raw =? 1); reflexivity.
     - rewrite ws_byte. rewrite (rd_int_sb 1 8) by (try lia; try reflexivity; exact Hw). reflexivity.
     - rewrite ws_i16. rewrite (rd_int_sb 2 16) by (try lia; try reflexivity; exact Hw). reflexivity.
@@ -144,11 +144,11 @@ Section Leaves.
   Qed.
 
   Lemma walk_string_ok s b r : wf (VString s) = true ->
-    walk_string o b (encode (VString s) ++ r) = walk_spec fd (json_of o (DString b) (VString s)) r.
+    walk_string o b (encode (VString s) ++ r) = walk_spec fd (json_ofw o (DString b) (VString s)) r.
   Proof.
     intros Hw. cbn [wf] in Hw. apply andb_true_iff in Hw. destruct Hw as [Hb Hl]. apply Z.ltb_lt in Hl.
     cbn [encode]. rewrite <- app_assoc. unfold walk_string. rewrite rd_bytes_enc by exact Hl.
-    unfold walk_spec, spec_text_fd. cbn [json_of].
+    unfold walk_spec, spec_text_fd. cbn [json_ofw].
     destruct b; cbn [andb jexp_finite to_json_fd json_print]; [|reflexivity].
     destruct (o_no_base64 o); cbn [negb jexp_finite to_json_fd json_print]; [reflexivity|].
     rewrite quote_plain; [reflexivity|]. apply b64_encode_plain. apply bytes_okb_Forall. exact Hb.
@@ -175,6 +175,28 @@ Section Leaves.
         (match rd_bytes ((enc_int 4 (zlen s) ++ s) ++ r) with Some (s, r) => Some (quote_ref s, r) | None => None end).
       apply andb_true_iff in Hw. destruct Hw as [_ Hl]. apply Z.ltb_lt in Hl.
       rewrite <- app_assoc. rewrite rd_bytes_enc by exact Hl. reflexivity.
+  Qed.
+
+  (* appendInt of value_mapping.go writes the spec's js_conv scalar *)
+  Lemma walk_vm_scalar_ok v r : (forall b, forallb plain (fd b) = true) -> wf v = true ->
+    walk_vm_scalar fd o (type_of v) (encode v ++ r) = walk_spec fd (jsconv_scalar o v) r.
+  Proof.
+    intros Hfd Hw.
+    destruct v; cbn [type_of];
+      try (change (walk_vm_scalar fd o ?t ?bs) with (walk_key_t o t bs));
+      try (match goal with |- walk_key_t o ?t (encode ?k ++ r) = _ => let K := fresh in pose proof (walk_key_ok k r Hw) as K; cbn [type_of] in K; rewrite K end;
+           unfold walk_spec, spec_text_fd; cbn [key_of jsconv_scalar jexp_finite to_json_fd json_print]; reflexivity).
+    (* double *)
+    change (walk_vm_scalar fd o T_DOUBLE (encode (VDouble bits) ++ r)) with
+      (match rd_uint 8 (encode (VDouble bits) ++ r) with
+       | Some (b, r) => if f64_is_finite b then Some (34 :: fd b ++ [34], r) else None
+       | None => None
+       end).
+    cbn [encode wf] in *. unfold rd_uint. rewrite take_enc_int, dec_uint_enc_int.
+    apply andb_true_iff in Hw. destruct Hw as [H0 H1]. apply Z.leb_le in H0. apply Z.ltb_lt in H1.
+    rewrite Z.mod_small by (change (256 ^ Z.of_nat 8) with (2 ^ 64); lia).
+    unfold walk_spec, spec_text_fd. cbn [jsconv_scalar jexp_finite to_json_fd json_print].
+    destruct (f64_is_finite bits); [|reflexivity]. rewrite (quote_plain _ (Hfd bits)). reflexivity.
   Qed.
 End Leaves.
 
@@ -280,18 +302,126 @@ Proof.
   repeat match goal with H : _ \/ _ |- _ => destruct H as [H|H] end; subst; reflexivity.
 Qed.
 
+(* ------------------------------------------------------------------ handleUnsets *)
+(* the members written at STOP, read off the bitmap (fs in scan order) *)
+Fixpoint unset_walk_bm (o : Z) (fs : list (fmeta * tdesc)) (bm : list Z) : list (list Z * jexp) + Z :=
+  match fs with
+  | [] => inl []
+  | f :: r =>
+    if negb (bm_isset bm (f_id (fst f))) then unset_walk_bm o r bm
+    else if f_req (fst f) =? 1 then
+      (if o_write_required o
+       then match unset_walk_bm o r bm with inl us => inl ((f_key (fst f), zero_of (snd f)) :: us) | inr c => inr c end
+       else inr E_REQUIRED)
+    else if (f_req (fst f) =? 0) && o_write_default o then
+      match unset_walk_bm o r bm with inl us => inl ((f_key (fst f), zero_of (snd f)) :: us) | inr c => inr c end
+    else unset_walk_bm o r bm
+  end.
+
+Lemma zero_text_ok fd d : json_print (to_json_fd fd (zero_of d)) = zero_text fd d.
+Proof.
+  destruct d as [t|b|fs|dk dv|s de]; try reflexivity.
+  cbn [zero_of zero_text]. destruct (t =? T_BOOL); [reflexivity|]. destruct (t =? T_DOUBLE); reflexivity.
+Qed.
+
+Lemma zero_finite d : jexp_finite (zero_of d) = true.
+Proof.
+  destruct d as [t|b|fs|dk dv|s de]; try reflexivity.
+  cbn [zero_of]. destruct (t =? T_BOOL); [reflexivity|]. destruct (t =? T_DOUBLE); reflexivity.
+Qed.
+
+Lemma walk_unsets_ok fd o : forall l bm c,
+  walk_unsets fd o l bm c =
+  match unset_walk_bm o l bm with inr _ => None | inl us => Some (obj_tail c (map (pm fd) us)) end.
+Proof.
+  induction l as [|f l IH]; intros bm c.
+  - cbn [walk_unsets unset_walk_bm map]. rewrite obj_tail_nil. reflexivity.
+  - cbn [walk_unsets unset_walk_bm].
+    assert (Emit : match walk_unsets fd o l bm true with
+                   | Some tl => Some (sep c ++ quote_ref (f_key (fst f)) ++ 58 :: zero_text fd (snd f) ++ tl)
+                   | None => None
+                   end =
+                   match (match unset_walk_bm o l bm with inl us => inl ((f_key (fst f), zero_of (snd f)) :: us) | inr c0 => inr c0 end)
+                   with inr _ => None | inl us => Some (obj_tail c (map (pm fd) us)) end).
+    { rewrite IH. destruct (unset_walk_bm o l bm) as [us|]; [|reflexivity].
+      cbn [map]. unfold pm at 2. cbn [fst snd]. rewrite <- obj_tail_cons, zero_text_ok. reflexivity. }
+    destruct (negb (bm_isset bm (f_id (fst f)))); [apply IH|].
+    destruct (f_req (fst f) =? 1).
+    + destruct (o_write_required o); [exact Emit | reflexivity].
+    + destruct ((f_req (fst f) =? 0) && o_write_default o); [exact Emit | apply IH].
+Qed.
+
+Lemma unset_walk_finite o : forall l p us, unset_walk o l p = inl us -> mem_finite us = true.
+Proof.
+  induction l as [|f l IH]; intros p us H; cbn [unset_walk] in H.
+  - inversion H. reflexivity.
+  - assert (Emit : match unset_walk o l p with inl us0 => inl ((f_key (fst f), zero_of (snd f)) :: us0) | inr c => inr c end = inl us ->
+                   mem_finite us = true).
+    { intros H'. destruct (unset_walk o l p) as [us0|] eqn:E; [|discriminate]. inversion H'; subst.
+      unfold mem_finite. cbn [forallb snd]. rewrite zero_finite. exact (IH p us0 E). }
+    destruct (is_present p f); [exact (IH p us H)|].
+    destruct (f_req (fst f) =? 1).
+    + destruct (o_write_required o); [exact (Emit H) | discriminate].
+    + destruct ((f_req (fst f) =? 0) && o_write_default o); [exact (Emit H) | exact (IH p us H)].
+Qed.
+
+Lemma bm_isset_init_any fs f : In f fs -> (f_req (fst f) =? 2) = false -> bm_isset (bm_init fs) (f_id (fst f)) = true.
+Proof.
+  intros Hin Hr. unfold bm_isset, bm_init. apply existsb_exists. exists (f_id (fst f)). split; [|apply Z.eqb_refl].
+  apply in_map_iff. exists f. split; [reflexivity|]. apply filter_In. split; [exact Hin|]. rewrite Hr. reflexivity.
+Qed.
+
+(* the bitmap the walk holds at STOP says what the spec computes from the ids met *)
+Lemma unset_walk_bm_eq o fs ids : forall l, (forall f, In f l -> In f fs) ->
+  unset_walk_bm o l (bm_run fs ids (bm_init fs)) = unset_walk o l ids.
+Proof.
+  induction l as [|f l IH]; intros Hl; [reflexivity|].
+  assert (Hin : In f fs) by (apply Hl; left; reflexivity).
+  assert (IH' := IH (fun g Hg => Hl g (or_intror Hg))).
+  cbn [unset_walk_bm unset_walk]. rewrite IH'.
+  rewrite (bm_isset_run fs _ (find_field_of_in fs f Hin)). unfold is_present.
+  destruct (existsb (fun id => id =? f_id (fst f)) ids); [rewrite andb_false_r; reflexivity|].
+  rewrite andb_true_r.
+  destruct (Z.eqb_spec (f_req (fst f)) 1) as [E1|N1].
+  - rewrite (bm_isset_init_any fs f Hin) by (rewrite E1; reflexivity). reflexivity.
+  - destruct (Z.eqb_spec (f_req (fst f)) 0) as [E0|N0].
+    + rewrite (bm_isset_init_any fs f Hin) by (rewrite E0; reflexivity). reflexivity.
+    + cbn [andb]. destruct (negb (bm_isset (bm_init fs) (f_id (fst f)))); reflexivity.
+Qed.
+
+Lemma In_insert_fld f g l : In g (insert_fld f l) -> g = f \/ In g l.
+Proof.
+  induction l as [|h l IH]; cbn [insert_fld]; intros H.
+  - destruct H as [<-|[]]. left; reflexivity.
+  - destruct (f_id (fst f) <=? f_id (fst h)).
+    + destruct H as [<-|H]; [left; reflexivity | right; exact H].
+    + destruct H as [<-|H]; [right; left; reflexivity|]. destruct (IH H) as [->|H']; [left; reflexivity | right; right; exact H'].
+Qed.
+
+Lemma In_sort_flds fs g : In g (sort_flds fs) -> In g fs.
+Proof.
+  unfold sort_flds. induction fs as [|f fs IH]; cbn [fold_right]; intros H; [exact H|].
+  destruct (In_insert_fld _ _ _ H) as [->|H']; [left; reflexivity | right; exact (IH H')].
+Qed.
+
 (* ------------------------------------------------------------------ one lemma per loop *)
 Section LoopLemmas.
   Variable fd : Z -> list Z.
   Variable o : Z.
   Variable rec : tdesc -> list Z -> option (list Z * list Z).
+  Variable bx : fmeta -> bool.
 
-  (* the spec's step on one struct field, value mapping off *)
-  Definition fstep (fs : list (fmeta * tdesc)) (iv : Z * tval) : fres :=
+  (* the value of one known field: api.js_conv under EnableValueMapping, else the denotation *)
+  Definition fvalw (f : fmeta * tdesc) (x : tval) : tres :=
+    if o_value_mapping o && f_jsconv (fst f) then jsconv o x else json_ofw o (snd f) x.
+
+  (* the spec's step on one struct field (bx: extracted into the context, no member) *)
+  Definition fstepw (fs : list (fmeta * tdesc)) (iv : Z * tval) : fres :=
     match find_field fs (fst iv) with
     | None => if o_disallow_unknown o then FErr E_UNKNOWN else FDrop
     | Some f =>
-      match json_of o (snd f) (snd iv) with
+      if bx (fst f) then FDrop else
+      match fvalw f (snd iv) with
       | TOk e => FMem (f_key (fst f)) e
       | TExc _ => FErr 0
       | TErr c => FErr c
@@ -299,50 +429,58 @@ Section LoopLemmas.
     end.
 
   Definition rec_ok (d : tdesc) (x : tval) : Prop :=
-    forall r, rec d (encode x ++ r) = walk_spec fd (json_of o d x) r.
+    forall r, rec d (encode x ++ r) = walk_spec fd (json_ofw o d x) r.
 
   Definition field_ok (fs : list (fmeta * tdesc)) (iv : Z * tval) : Prop :=
     in_sb 16 (fst iv) = true /\
     match find_field fs (fst iv) with
-    | Some f => rec_ok (snd f) (snd iv)
+    | Some f =>
+      if bx (fst f) then forall r, skip_go T_STRUCT (encode (snd iv) ++ r) = Some r
+      else forall r, (if o_value_mapping o && f_jsconv (fst f) then walk_vm fd o (snd f) (encode (snd iv) ++ r)
+                      else rec (snd f) (encode (snd iv) ++ r)) = walk_spec fd (fvalw f (snd iv)) r
     | None => forall r, skip_go (type_of (snd iv)) (encode (snd iv) ++ r) = Some r
     end.
 
   Lemma walk_fields_ok fs : forall vs fuel c bm r,
     Forall (field_ok fs) vs -> (length vs < fuel)%nat ->
-    walk_fields o rec fuel fs c bm
+    walk_fields fd o rec bx fuel fs c bm
       (flat_map (fun f => type_of (snd f) :: enc_int 2 (fst f) ++ encode (snd f)) vs ++ 0 :: r) =
-    match members_of (map (fstep fs) vs) with
+    match members_of (map (fstepw fs) vs) with
     | inr _ => None
     | inl ms =>
       if mem_finite ms
-      then (if bm_missing fs (bm_run fs (map fst vs) bm) then None else Some (obj_tail c (map (pm fd) ms), r))
+      then match unset_walk_bm o (sort_flds fs) (bm_run fs (map fst vs) bm) with
+           | inr _ => None
+           | inl us => Some (obj_tail c (map (pm fd) (ms ++ us)), r)
+           end
       else None
     end.
   Proof.
     induction vs as [|[id x] vs IH]; intros fuel c bm r HF Hfuel; destruct fuel as [|fuel]; try (cbn in Hfuel; lia).
     - cbn [flat_map app walk_fields map members_of mem_finite forallb bm_run].
       change (negb (valid_ttype 0)) with false. change (0 =? 0) with true. cbn iota.
-      rewrite obj_tail_nil. reflexivity.
+      rewrite walk_unsets_ok. destruct (unset_walk_bm o (sort_flds fs) bm); reflexivity.
     - inversion HF as [|? ? [Hid Hx] HF']; subst. cbn [fst snd] in *.
       cbn [flat_map walk_fields]. cbn [app fst snd].
       rewrite valid_ttype_type_of. cbn [negb].
       destruct (Z.eqb_spec (type_of x) 0) as [E0|_]; [exfalso; exact (valid_type_nonzero _ (type_of_valid x) E0)|].
       rewrite <- !app_assoc.
       rewrite (rd_int_sb 2 16) by (try lia; try reflexivity; exact Hid).
-      cbn [map members_of fst bm_run]. unfold fstep at 1. cbn [fst snd].
+      cbn [map members_of fst bm_run]. unfold fstepw at 1. cbn [fst snd].
       destruct (find_field fs id) as [f|] eqn:Ef.
-      + rewrite Hx. unfold walk_spec, spec_text_fd.
-        destruct (json_of o (snd f) x) as [e|e|cc]; [|reflexivity|reflexivity].
-        destruct (jexp_finite e) eqn:Efin.
-        * rewrite IH by (try exact HF'; cbn in Hfuel; lia).
-          destruct (members_of (map (fstep fs) vs)) as [ms|]; [|reflexivity].
-          unfold mem_finite. cbn [forallb snd]. rewrite Efin. cbn [andb].
-          fold (mem_finite ms). destruct (mem_finite ms); [|reflexivity].
-          destruct (bm_missing fs (bm_run fs (map fst vs) (bm_clear id bm))); [reflexivity|].
-          cbn [map]. unfold pm at 2. cbn [fst snd]. rewrite <- obj_tail_cons. reflexivity.
-        * destruct (members_of (map (fstep fs) vs)) as [ms|]; [|reflexivity].
-          unfold mem_finite. cbn [forallb snd]. rewrite Efin. reflexivity.
+      + destruct (bx (fst f)).
+        * rewrite Hx. apply IH; [exact HF'|cbn in Hfuel; lia].
+        * rewrite Hx. unfold walk_spec, spec_text_fd.
+          destruct (fvalw f x) as [e|e|cc]; [|reflexivity|reflexivity].
+          destruct (jexp_finite e) eqn:Efin.
+          -- rewrite IH by (try exact HF'; cbn in Hfuel; lia).
+             destruct (members_of (map (fstepw fs) vs)) as [ms|]; [|reflexivity].
+             unfold mem_finite. cbn [forallb snd]. rewrite Efin. cbn [andb].
+             fold (mem_finite ms). destruct (mem_finite ms); [|reflexivity].
+             destruct (unset_walk_bm o (sort_flds fs) (bm_run fs (map fst vs) (bm_clear id bm))) as [us|]; [|reflexivity].
+             cbn [app map]. unfold pm at 2. cbn [fst snd]. rewrite <- obj_tail_cons. reflexivity.
+          -- destruct (members_of (map (fstepw fs) vs)) as [ms|]; [|reflexivity].
+             unfold mem_finite. cbn [forallb snd]. rewrite Efin. reflexivity.
       + destruct (o_disallow_unknown o); [reflexivity|].
         rewrite Hx. apply IH; [exact HF'|cbn in Hfuel; lia].
   Qed.
@@ -350,7 +488,7 @@ Section LoopLemmas.
   Lemma walk_elems_ok de : forall es c r,
     Forall (rec_ok de) es ->
     walk_elems rec (length es) de c (flat_map encode es ++ r) =
-    match all_ok (map (json_of o de) es) with
+    match all_ok (map (json_ofw o de) es) with
     | inr _ => None
     | inl xs => if forallb jexp_finite xs then Some (arr_tail c (map (to_json_fd fd) xs), r) else None
     end.
@@ -360,13 +498,38 @@ Section LoopLemmas.
     - inversion HF as [|? ? Hx HF']; subst.
       cbn [length walk_elems flat_map map all_ok]. rewrite <- app_assoc. rewrite Hx.
       unfold walk_spec, spec_text_fd.
-      destruct (json_of o de x) as [e|e|cc]; [|reflexivity|reflexivity].
+      destruct (json_ofw o de x) as [e|e|cc]; [|reflexivity|reflexivity].
       destruct (jexp_finite e) eqn:Efin.
       + rewrite IH by exact HF'.
-        destruct (all_ok (map (json_of o de) es)) as [xs|]; [|reflexivity].
+        destruct (all_ok (map (json_ofw o de) es)) as [xs|]; [|reflexivity].
         cbn [forallb]. rewrite Efin. cbn [andb]. destruct (forallb jexp_finite xs); [|reflexivity].
         cbn [map]. rewrite <- arr_tail_cons. reflexivity.
-      + destruct (all_ok (map (json_of o de) es)) as [xs|]; [|reflexivity].
+      + destruct (all_ok (map (json_ofw o de) es)) as [xs|]; [|reflexivity].
+        cbn [forallb]. rewrite Efin. reflexivity.
+  Qed.
+
+  (* the element loop of apiJSConv.Read *)
+  Lemma walk_vm_elems_ok et : (forall b, forallb plain (fd b) = true) -> forall es c r,
+    Forall (fun x => type_of x = et /\ wf x = true) es ->
+    walk_vm_elems fd o (length es) et c (flat_map encode es ++ r) =
+    match all_ok (map (jsconv_scalar o) es) with
+    | inr _ => None
+    | inl xs => if forallb jexp_finite xs then Some (arr_tail c (map (to_json_fd fd) xs), r) else None
+    end.
+  Proof.
+    intros Hfd. induction es as [|x es IH]; intros c r HF.
+    - cbn [length walk_vm_elems flat_map app map all_ok forallb]. rewrite arr_tail_nil. reflexivity.
+    - inversion HF as [|? ? [Ht Hw] HF']; subst.
+      cbn [length walk_vm_elems flat_map map all_ok]. rewrite <- app_assoc.
+      rewrite (walk_vm_scalar_ok fd o x _ Hfd Hw).
+      unfold walk_spec, spec_text_fd.
+      destruct (jsconv_scalar o x) as [e|e|cc]; [|reflexivity|reflexivity].
+      destruct (jexp_finite e) eqn:Efin.
+      + rewrite IH by exact HF'.
+        destruct (all_ok (map (jsconv_scalar o) es)) as [xs|]; [|reflexivity].
+        cbn [forallb]. rewrite Efin. cbn [andb]. destruct (forallb jexp_finite xs); [|reflexivity].
+        cbn [map]. rewrite <- arr_tail_cons. reflexivity.
+      + destruct (all_ok (map (jsconv_scalar o) es)) as [xs|]; [|reflexivity].
         cbn [forallb]. rewrite Efin. reflexivity.
   Qed.
 
@@ -378,7 +541,7 @@ Section LoopLemmas.
   Lemma walk_pairs_ok dk dv : forall es c r,
     Forall (pair_ok dk dv) es ->
     walk_pairs o rec (length es) dk dv c (flat_map (fun e => encode (fst e) ++ encode (snd e)) es ++ r) =
-    match keyed (map (fun e => key_of o (fst e)) es) (map (fun e => json_of o dv (snd e)) es) with
+    match keyed (map (fun e => key_of o (fst e)) es) (map (fun e => json_ofw o dv (snd e)) es) with
     | inr _ => None
     | inl ms => if mem_finite ms then Some (obj_tail c (map (pm fd) ms), r) else None
     end.
@@ -389,30 +552,82 @@ Section LoopLemmas.
       cbn [length walk_pairs flat_map map keyed fst snd]. rewrite <- !app_assoc. rewrite Hk.
       destruct (key_of o k) as [s|]; [|reflexivity].
       rewrite Hx. unfold walk_spec, spec_text_fd.
-      destruct (json_of o dv x) as [e|e|cc]; [|reflexivity|reflexivity].
+      destruct (json_ofw o dv x) as [e|e|cc]; [|reflexivity|reflexivity].
       destruct (jexp_finite e) eqn:Efin.
       + rewrite IH by exact HF'.
-        destruct (keyed (map (fun e0 => key_of o (fst e0)) es) (map (fun e0 => json_of o dv (snd e0)) es)) as [ms|]; [|reflexivity].
+        destruct (keyed (map (fun e0 => key_of o (fst e0)) es) (map (fun e0 => json_ofw o dv (snd e0)) es)) as [ms|]; [|reflexivity].
         unfold mem_finite. cbn [forallb snd]. rewrite Efin. cbn [andb].
         fold (mem_finite ms). destruct (mem_finite ms); [|reflexivity].
         cbn [map]. unfold pm at 2. cbn [fst snd]. rewrite <- obj_tail_cons. reflexivity.
-      + destruct (keyed (map (fun e0 => key_of o (fst e0)) es) (map (fun e0 => json_of o dv (snd e0)) es)) as [ms|]; [|reflexivity].
+      + destruct (keyed (map (fun e0 => key_of o (fst e0)) es) (map (fun e0 => json_ofw o dv (snd e0)) es)) as [ms|]; [|reflexivity].
         unfold mem_finite. cbn [forallb snd]. rewrite Efin. reflexivity.
   Qed.
 End LoopLemmas.
+
+(* ------------------------------------------------------------------ api.js_conv on one field *)
+Lemma walk_vm_ok fd o v d r : (forall b, forallb plain (fd b) = true) ->
+  wf v = true -> conforms v d = true -> desc_wf d = true ->
+  walk_vm fd o d (encode v ++ r) = walk_spec fd (jsconv o v) r.
+Proof.
+  intros Hfd Hw Hc Hdw.
+  assert (Scal : forall (t : nat), desc_type d = type_of v -> (match d with DList false _ => False | _ => True end) ->
+                 (match v with VList _ _ => False | _ => True end) ->
+                 walk_vm fd o d (encode v ++ r) = walk_spec fd (jsconv o v) r).
+  { intros _ Ht Hd Hv. assert (E1 : walk_vm fd o d (encode v ++ r) = walk_vm_scalar fd o (desc_type d) (encode v ++ r)).
+    { destruct d as [t|b|fs|dk dv|[|] de]; try reflexivity. destruct Hd. }
+    rewrite E1, Ht. rewrite (walk_vm_scalar_ok fd o v r Hfd Hw). destruct v; try reflexivity. destruct Hv. }
+  destruct v as [b|z|z|z|z|z|s|vs|kt vt es|et es|et es].
+  1-6: destruct d as [t|bb|fs|dk dv|ss de]; cbn [conforms type_of] in Hc; try discriminate Hc;
+       apply andb_true_iff in Hc; destruct Hc as [_ Hc]; apply Z.eqb_eq in Hc; apply (Scal O); cbn [desc_type type_of]; auto.
+  - destruct d as [t|bb|fs|dk dv|ss de]; cbn [conforms type_of] in Hc; try discriminate Hc.
+    + apply andb_true_iff in Hc. destruct Hc as [Hn Hc]. apply Z.eqb_eq in Hc. subst t. discriminate Hn.
+    + apply (Scal O); cbn [desc_type type_of]; auto.
+  - destruct d as [t|bb|fs|dk dv|ss de]; cbn [conforms type_of] in Hc; try discriminate Hc.
+    + apply andb_true_iff in Hc. destruct Hc as [Hn Hc]. apply Z.eqb_eq in Hc. subst t. discriminate Hn.
+    + apply (Scal O); cbn [desc_type type_of]; auto.
+  - destruct d as [t|bb|fs|dk dv|ss de]; cbn [conforms type_of] in Hc; try discriminate Hc.
+    + apply andb_true_iff in Hc. destruct Hc as [Hn Hc]. apply Z.eqb_eq in Hc. subst t. discriminate Hn.
+    + apply (Scal O); cbn [desc_type type_of]; auto.
+  - destruct d as [t|bb|fs|dk dv|ss de]; cbn [conforms type_of] in Hc; try discriminate Hc.
+    + apply andb_true_iff in Hc. destruct Hc as [Hn Hc]. apply Z.eqb_eq in Hc. subst t. discriminate Hn.
+    + destruct ss; [|discriminate Hc]. apply (Scal O); cbn [desc_type type_of]; auto.
+  - (* LIST *)
+    destruct d as [t|bb|fs|dk dv|ss de]; cbn [conforms type_of] in Hc; try discriminate Hc.
+    1:{ apply andb_true_iff in Hc. destruct Hc as [Hn Hc]. apply Z.eqb_eq in Hc. subst t. discriminate Hn. }
+    destruct ss; [discriminate Hc|].
+    apply andb_true_iff in Hc. destruct Hc as [Het _]. apply Z.eqb_eq in Het.
+    cbn [desc_wf] in Hdw.
+    cbn [wf] in Hw. repeat (apply andb_true_iff in Hw; destruct Hw as [Hw ?]).
+    match goal with H : (zlen es <? 2 ^ 31) = true |- _ => apply Z.ltb_lt in H; rename H into Hlen end.
+    match goal with H : forallb _ es = true |- _ => rewrite forallb_forall in H; rename H into Hall end.
+    cbn [walk_vm encode app]. rewrite <- app_assoc.
+    subst et. rewrite (valid_ttype_desc de Hdw). cbn [negb].
+    assert (0 <= zlen es) by (unfold zlen; lia).
+    rewrite skip_count_ok by lia.
+    pose proof (flat_map_length_ge encode es encode_nonempty) as Hge.
+    destruct (Z.gtb_spec (zlen es) (zlen (flat_map encode es ++ r))); [unfold zlen in *; rewrite app_length in *; lia|].
+    rewrite to_nat_zlen.
+    rewrite (walk_vm_elems_ok fd o (desc_type de) Hfd es false r).
+    + unfold walk_spec, spec_text_fd. cbn [jsconv].
+      destruct (all_ok (map (jsconv_scalar o) es)) as [xs|]; [|reflexivity].
+      cbn [jexp_finite to_json_fd]. destruct (forallb jexp_finite xs); [|reflexivity]. rewrite print_arr. reflexivity.
+    + apply Forall_forall. intros x Hx. specialize (Hall x Hx). apply andb_true_iff in Hall. destruct Hall as [Ht Hwx].
+      apply Z.eqb_eq in Ht. split; assumption.
+Qed.
 
 (* ------------------------------------------------------------------ unfolding the walk *)
 Section Main.
   Variable fd : Z -> list Z.
   Variable o : Z.
-  Hypothesis Hvm : o_value_mapping o = false.
+  (* a quoted double (api.js_conv) is printed as a JSON string: its lexeme must need no escaping *)
+  Hypothesis Hfd : o_value_mapping o = true -> forall b, forallb plain (fd b) = true.
 
   Lemma walk_scalar_eq n t bs : t2j_walk_gen fd o n (DScalar t) bs = walk_scalar fd o t bs.
   Proof. destruct n; reflexivity. Qed.
   Lemma walk_string_eq n b bs : t2j_walk_gen fd o n (DString b) bs = walk_string o b bs.
   Proof. destruct n; reflexivity. Qed.
   Lemma walk_struct_eq n fs bs : t2j_walk_gen fd o (S n) (DStruct fs) bs =
-    match walk_fields o (t2j_walk_gen fd o n) (S (length bs)) fs false (bm_init fs) bs with
+    match walk_fields fd o (t2j_walk_gen fd o n) (fun _ => false) (S (length bs)) fs false (bm_init fs) bs with
     | Some (t, r) => Some (123 :: t, r)
     | None => None
     end.
@@ -452,20 +667,18 @@ Section Main.
     end.
   Proof. reflexivity. Qed.
 
-  Lemma json_of_struct_eq fs vs : json_of o (DStruct fs) (VStruct vs) =
-    match members_of (map (fstep o fs) vs) with
+  Lemma json_ofw_struct_eq fs vs : json_ofw o (DStruct fs) (VStruct vs) =
+    match members_of (map (fstepw o (fun _ => false) fs) vs) with
     | inr c => TErr c
-    | inl ms => if missing_required fs (map fst vs) then TErr E_REQUIRED else TOk (EObj ms)
+    | inl ms => match unset_members o fs (map fst vs) with inr c => TErr c | inl us => TOk (EObj (ms ++ us)) end
     end.
-  Proof.
-    cbn [json_of]. erewrite map_ext; [reflexivity|]. intros iv. unfold fstep. rewrite Hvm. reflexivity.
-  Qed.
+  Proof. reflexivity. Qed.
 
   (* a value the walk can take: well-formed, and every unknown field in it can be skipped by SkipGo *)
   Definition WalkP (v : tval) : Prop :=
     forall d n r, wf v = true -> conforms v d = true -> desc_wf d = true ->
     (depth v <= n)%nat -> (depth v <= max_skip_depth)%nat ->
-    t2j_walk_gen fd o n d (encode v ++ r) = walk_spec fd (json_of o d v) r.
+    t2j_walk_gen fd o n d (encode v ++ r) = walk_spec fd (json_ofw o d v) r.
 
   Ltac bad_conf Hc :=
     cbn [conforms type_of] in Hc; try discriminate Hc;
@@ -480,7 +693,7 @@ Section Main.
     (fold_right (fun e m => Nat.max (depth e) m) O es <= n)%nat ->
     (fold_right (fun e m => Nat.max (depth e) m) O es <= max_skip_depth)%nat ->
     t2j_walk_gen fd o (S n) (DList s de) ((et :: enc_int 4 (zlen es) ++ flat_map encode es) ++ r) =
-    walk_spec fd (match all_ok (map (json_of o de) es) with inl xs => TOk (EArr xs) | inr c => TErr c end) r.
+    walk_spec fd (match all_ok (map (json_ofw o de) es) with inl xs => TOk (EArr xs) | inr c => TErr c end) r.
   Proof.
     intros IH Hw Hc Hdw Hd Hs.
     destruct (good_elems_inv et es Hw Hs) as [Hlen Hgood].
@@ -494,7 +707,7 @@ Section Main.
     rewrite to_nat_zlen.
     rewrite (walk_elems_ok fd o (t2j_walk_gen fd o n) de es false r).
     - unfold walk_spec, spec_text_fd.
-      destruct (all_ok (map (json_of o de) es)) as [xs|]; [|reflexivity].
+      destruct (all_ok (map (json_ofw o de) es)) as [xs|]; [|reflexivity].
       cbn [jexp_finite to_json_fd]. destruct (forallb jexp_finite xs); [|reflexivity]. rewrite print_arr. reflexivity.
     - pose proof (fold_max_le depth es n Hd) as Hdep.
       rewrite Forall_forall in *. intros e Hin r'.
@@ -502,7 +715,45 @@ Section Main.
       apply (IH e Hin); auto.
   Qed.
 
-  Theorem walk_refines : forall v, WalkP v.
+  (* the obligations of the field loop, for the fields of a conforming struct value (any extraction predicate bx that only
+     extracts struct-typed fields) *)
+  Lemma fields_obligations bx fs vs n :
+    (forall f, In f fs -> bx (fst f) = true -> desc_type (snd f) = T_STRUCT) ->
+    Forall (fun f => WalkP (snd f)) vs ->
+    wf (VStruct vs) = true -> conforms (VStruct vs) (DStruct fs) = true -> desc_wf (DStruct fs) = true ->
+    (fold_right (fun (f : Z * tval) m => Nat.max (depth (snd f)) m) O vs <= n)%nat ->
+    (depth (VStruct vs) <= max_skip_depth)%nat ->
+    Forall (field_ok fd o (t2j_walk_gen fd o n) bx fs) vs.
+  Proof.
+    intros Hbx IH Hw Hc Hdw Hd Hs.
+    pose proof (good_struct_inv vs (conj Hw Hs)) as Hgood.
+    pose proof (fold_max_le (fun f : Z * tval => depth (snd f)) vs n Hd) as Hdep.
+    cbn [conforms] in Hc. rewrite forallb_forall in Hc.
+    cbn [desc_wf] in Hdw. rewrite forallb_forall in Hdw.
+    rewrite Forall_forall in *. intros iv Hin.
+    destruct (Hgood iv Hin) as [Hid [Hwx Hsx]]. split; [exact Hid|].
+    specialize (Hc iv Hin). specialize (Hdep iv Hin).
+    destruct (find_field fs (fst iv)) as [f|] eqn:Ef.
+    - pose proof (find_field_in _ _ _ Ef) as Hfin.
+      destruct (bx (fst f)) eqn:Eb.
+      + intros r'. pose proof (Hbx f Hfin Eb) as Hty.
+        assert (Tx : type_of (snd iv) = T_STRUCT).
+        { destruct (snd f) as [t|b|fs'|dk dv|ss de]; cbn [desc_type] in Hty.
+          - subst t. destruct (snd iv); cbn [conforms] in Hc; change (is_num_scalar T_STRUCT) with false in Hc;
+              cbn [andb] in Hc; discriminate Hc.
+          - vm_compute in Hty. discriminate Hty.
+          - destruct (snd iv); cbn [conforms] in Hc; try discriminate Hc. reflexivity.
+          - vm_compute in Hty. discriminate Hty.
+          - destruct ss; vm_compute in Hty; discriminate Hty. }
+        rewrite <- Tx. apply skip_go_encode. split; assumption.
+      + intros r'. unfold fvalw. destruct (o_value_mapping o && f_jsconv (fst f)) eqn:Evm.
+        * apply andb_true_iff in Evm. destruct Evm as [Evm _].
+          apply walk_vm_ok; auto.
+        * apply (IH iv Hin); auto.
+    - intros r'. apply skip_go_encode. split; assumption.
+  Qed.
+
+  Theorem walk_refines_w : forall v, WalkP v.
   Proof.
     induction v as [b|z|z|z|z|z|s|vs IH|kt vt es IH|et es IH|et es IH] using tval_ind';
       intros d n r Hw Hc Hdw Hd Hs.
@@ -515,24 +766,18 @@ Section Main.
     - destruct d; try bad_conf Hc. rewrite walk_string_eq. apply walk_string_ok; assumption.
     - (* struct *)
       destruct d as [t|bb|fs|dk dv|ss de]; try bad_conf Hc.
-      destruct n as [|n]; [cbn in Hd; lia|]. cbn [depth] in Hd, Hs. apply le_S_n in Hd.
+      destruct n as [|n]; [cbn in Hd; lia|]. cbn [depth] in Hd. apply le_S_n in Hd.
       rewrite walk_struct_eq. cbn [encode]. rewrite <- app_assoc. cbn [app].
-      pose proof (good_struct_inv vs (conj Hw Hs)) as Hgood.
-      pose proof (fold_max_le (fun f : Z * tval => depth (snd f)) vs n Hd) as Hdep.
-      cbn [conforms] in Hc. rewrite forallb_forall in Hc.
-      cbn [desc_wf] in Hdw. rewrite forallb_forall in Hdw.
-      rewrite (walk_fields_ok fd o (t2j_walk_gen fd o n) fs vs).
-      + rewrite json_of_struct_eq. rewrite bm_missing_run. unfold walk_spec, spec_text_fd.
-        destruct (members_of (map (fstep o fs) vs)) as [ms|]; [|reflexivity].
-        destruct (missing_required fs (map fst vs)); [destruct (mem_finite ms); reflexivity|].
-        cbn [jexp_finite to_json_fd]. fold (mem_finite ms). destruct (mem_finite ms); [|reflexivity].
-        rewrite print_obj. reflexivity.
-      + rewrite Forall_forall in *. intros iv Hin.
-        destruct (Hgood iv Hin) as [Hid [Hwx Hsx]]. split; [exact Hid|].
-        specialize (Hc iv Hin). specialize (Hdep iv Hin).
-        destruct (find_field fs (fst iv)) as [f|] eqn:Ef.
-        * intros r'. apply (IH iv Hin); auto. apply Hdw. exact (find_field_in _ _ _ Ef).
-        * intros r'. apply skip_go_encode. split; assumption.
+      rewrite (walk_fields_ok fd o (t2j_walk_gen fd o n) (fun _ => false) fs vs).
+      + rewrite json_ofw_struct_eq. unfold unset_members.
+        rewrite (unset_walk_bm_eq o fs (map fst vs) (sort_flds fs) (In_sort_flds fs)).
+        unfold walk_spec, spec_text_fd.
+        destruct (members_of (map (fstepw o (fun _ => false) fs) vs)) as [ms|]; [|reflexivity].
+        destruct (unset_walk o (sort_flds fs) (map fst vs)) as [us|] eqn:Eu; [|destruct (mem_finite ms); reflexivity].
+        cbn [jexp_finite to_json_fd]. rewrite forallb_app. fold (mem_finite ms). fold (mem_finite us).
+        rewrite (unset_walk_finite o _ _ us Eu), andb_true_r.
+        destruct (mem_finite ms); [|reflexivity]. rewrite print_obj. reflexivity.
+      + apply fields_obligations; auto. intros f _ Hf. discriminate Hf.
       + rewrite app_length. cbn [length].
         pose proof (flat_map_length_ge (fun f : Z * tval => type_of (snd f) :: enc_int 2 (fst f) ++ encode (snd f)) vs
           ltac:(intros; cbn [length]; lia)). lia.
@@ -553,8 +798,8 @@ Section Main.
         [unfold zlen in *; rewrite app_length in *; lia|].
       rewrite to_nat_zlen.
       rewrite (walk_pairs_ok fd o (t2j_walk_gen fd o n) dk dv es false r).
-      + unfold walk_spec, spec_text_fd. cbn [json_of].
-        destruct (keyed (map (fun e => key_of o (fst e)) es) (map (fun e => json_of o dv (snd e)) es)) as [ms|]; [|reflexivity].
+      + unfold walk_spec, spec_text_fd. cbn [json_ofw].
+        destruct (keyed (map (fun e => key_of o (fst e)) es) (map (fun e => json_ofw o dv (snd e)) es)) as [ms|]; [|reflexivity].
         cbn [jexp_finite to_json_fd]. fold (mem_finite ms). destruct (mem_finite ms); [|reflexivity].
         rewrite print_obj. reflexivity.
       + pose proof (fold_max_le (fun e : tval * tval => Nat.max (depth (fst e)) (depth (snd e))) es n Hd) as Hdep.
@@ -568,11 +813,11 @@ Section Main.
     - (* set *)
       destruct d as [t|bb|fs|dk dv|ss de]; try bad_conf Hc. destruct ss; [|discriminate Hc].
       destruct n as [|n]; [cbn in Hd; lia|]. cbn [depth] in Hd, Hs. apply le_S_n in Hd.
-      cbn [encode json_of]. apply elems_case; auto. lia.
+      cbn [encode json_ofw]. apply elems_case; auto. lia.
     - (* list *)
       destruct d as [t|bb|fs|dk dv|ss de]; try bad_conf Hc. destruct ss; [discriminate Hc|].
       destruct n as [|n]; [cbn in Hd; lia|]. cbn [depth] in Hd, Hs. apply le_S_n in Hd.
-      cbn [encode json_of]. apply elems_case; auto. lia.
+      cbn [encode json_ofw]. apply elems_case; auto. lia.
   Qed.
 End Main.
 
@@ -591,12 +836,65 @@ Proof. destruct t as [e|e|c]; cbn [spec_text_fd spec_text]; try reflexivity. rew
 Definition walk_res (t : tres) (r : list Z) : option (list Z * list Z) :=
   match spec_text t with Some x => Some (x, r) | None => None end.
 
-Theorem walk_refines_exact o v d n r : o_value_mapping o = false ->
+(* number lexemes need no escaping between quotes *)
+Lemma numchar_plain c : is_numchar c = true -> plain c = true.
+Proof.
+  intros H. unfold is_numchar, is_digit, is_e in H. unfold plain.
+  assert (R : 43 <= c <= 101).
+  { repeat rewrite orb_true_iff in H. rewrite andb_true_iff in H. rewrite !Z.leb_le in H. rewrite !Z.eqb_eq in H. lia. }
+  destruct (Z.leb_spec 32 c); [|lia]. destruct (Z.eqb_spec c 34); [lia|]. destruct (Z.eqb_spec c 92); [lia|]. reflexivity.
+Qed.
+
+Lemma scan_plain : forall l st l' r, scan_num st l = Some (l', r) -> forallb plain l' = true.
+Proof.
+  induction l as [|c t IH]; intros st l' r H.
+  - cbn in H. destruct (num_acc st); inversion H; reflexivity.
+  - cbn [scan_num] in H. destruct (num_step st c) as [s|] eqn:E.
+    + destruct (scan_num s t) as [[l1 r1]|] eqn:E2; [|discriminate]. inversion H; subst.
+      cbn [forallb]. rewrite (numchar_plain c (num_step_numchar _ _ _ E)). exact (IH _ _ _ E2).
+    + destruct (num_acc st); inversion H; reflexivity.
+Qed.
+
+Lemma num_okb_plain l : num_okb l = true -> forallb plain l = true.
+Proof.
+  intros H. unfold num_okb in H. destruct (scan_num N0 l) as [[l' r]|] eqn:E; [|discriminate].
+  destruct r; [|discriminate].
+  destruct (scan_num_app l N0 l' [] E eq_refl) as [-> _]. exact (scan_plain _ _ _ _ E).
+Qed.
+
+Lemma exact_lexeme_plain b : forallb plain (f64_exact_lexeme b) = true.
+Proof. apply num_okb_plain, num_okb_f64_exact. Qed.
+
+(* all modelled options at once (value mapping, write options): the walk prints the spec tree json_ofw *)
+Theorem walk_refines_exact_w o v d n r :
+  wf v = true -> conforms v d = true -> desc_wf d = true -> (depth v <= n)%nat -> (depth v <= max_skip_depth)%nat ->
+  t2j_walk n o d (encode v ++ r) = walk_res (json_ofw o d v) r.
+Proof.
+  intros Hw Hc Hdw Hd Hs. unfold t2j_walk.
+  rewrite (walk_refines_w f64_exact_lexeme o (fun _ => exact_lexeme_plain) v d n r Hw Hc Hdw Hd Hs).
+  unfold walk_spec, walk_res. rewrite spec_text_fd_exact. reflexivity.
+Qed.
+
+Lemma vm_off_hfd (fd : Z -> list Z) o : o_value_mapping o = false -> o_value_mapping o = true -> forall b, forallb plain (fd b) = true.
+Proof. intros H1 H2. rewrite H1 in H2. discriminate H2. Qed.
+
+(* the options of the first development: no value mapping, write options off: the spec is json_of *)
+Theorem walk_refines fd o : o_value_mapping o = false -> o_write_default o = false -> o_write_required o = false ->
+  forall v d n r, wf v = true -> conforms v d = true -> desc_wf d = true ->
+  (depth v <= n)%nat -> (depth v <= max_skip_depth)%nat ->
+  t2j_walk_gen fd o n d (encode v ++ r) = walk_spec fd (json_of o d v) r.
+Proof.
+  intros Hvm Hwd Hwr v d n r Hw Hc Hdw Hd Hs.
+  rewrite (walk_refines_w fd o (vm_off_hfd fd o Hvm) v d n r Hw Hc Hdw Hd Hs).
+  rewrite (json_ofw_off o Hwd Hwr). reflexivity.
+Qed.
+
+Theorem walk_refines_exact o v d n r : o_value_mapping o = false -> o_write_default o = false -> o_write_required o = false ->
   wf v = true -> conforms v d = true -> desc_wf d = true -> (depth v <= n)%nat -> (depth v <= max_skip_depth)%nat ->
   t2j_walk n o d (encode v ++ r) = walk_res (json_of o d v) r.
 Proof.
-  intros Hvm Hw Hc Hdw Hd Hs. unfold t2j_walk. rewrite (walk_refines f64_exact_lexeme o Hvm v d n r Hw Hc Hdw Hd Hs).
-  unfold walk_spec, walk_res. rewrite spec_text_fd_exact. reflexivity.
+  intros Hvm Hwd Hwr Hw Hc Hdw Hd Hs. rewrite (walk_refines_exact_w o v d n r Hw Hc Hdw Hd Hs).
+  rewrite (json_ofw_off o Hwd Hwr). reflexivity.
 Qed.
 
 (* ------------------------------------------------------------------ corollaries *)
@@ -624,100 +922,308 @@ Proof.
   - split; [intros _; left; exists c; reflexivity | reflexivity].
 Qed.
 
-Theorem walk_error_iff o v d n r : o_value_mapping o = false ->
+Theorem walk_error_iff o v d n r : o_value_mapping o = false -> o_write_default o = false -> o_write_required o = false ->
   wf v = true -> conforms v d = true -> desc_wf d = true -> (depth v <= n)%nat -> (depth v <= max_skip_depth)%nat ->
   (t2j_walk n o d (encode v ++ r) = None <->
    (exists c, json_of o d v = TErr c) \/ (exists e, json_of o d v = TOk e /\ jexp_finite e = false)).
 Proof.
-  intros Hvm Hw Hc Hdw Hd Hs. rewrite (walk_refines_exact o v d n r Hvm Hw Hc Hdw Hd Hs).
+  intros Hvm Hwd Hwr Hw Hc Hdw Hd Hs. rewrite (walk_refines_exact o v d n r Hvm Hwd Hwr Hw Hc Hdw Hd Hs).
   rewrite <- spec_text_none. unfold walk_res. destruct (spec_text (json_of o d v)); split; intros H; try discriminate; reflexivity.
 Qed.
 
 (* never malformed with a nil error, at algorithm level: whatever the walk returns parses, with the proved parser,
    to the JSON of the spec tree, and the walk has consumed exactly the encoding *)
-Theorem walk_output_valid o v d n r txt r' : o_value_mapping o = false ->
+Theorem walk_output_valid o v d n r txt r' : o_value_mapping o = false -> o_write_default o = false -> o_write_required o = false ->
   wf v = true -> conforms v d = true -> desc_wf d = true -> desc_ok d = true ->
   (depth v <= n)%nat -> (depth v <= max_skip_depth)%nat ->
   t2j_walk n o d (encode v ++ r) = Some (txt, r') ->
   exists e, json_of o d v = TOk e /\ jexp_finite e = true /\
             txt = json_print (to_json e) /\ json_parse txt = Some (to_json e) /\ r' = r.
 Proof.
-  intros Hvm Hw Hc Hdw Hdo Hd Hs H. rewrite (walk_refines_exact o v d n r Hvm Hw Hc Hdw Hd Hs) in H.
+  intros Hvm Hwd Hwr Hw Hc Hdw Hdo Hd Hs H. rewrite (walk_refines_exact o v d n r Hvm Hwd Hwr Hw Hc Hdw Hd Hs) in H.
   unfold walk_res, spec_text in H. destruct (json_of o d v) as [e|e|c] eqn:E; try discriminate.
   destruct (jexp_finite e) eqn:Ef; [|discriminate]. inversion H; subst.
   exists e. split; [reflexivity|]. split; [exact Ef|]. split; [reflexivity|]. split; [|reflexivity].
   apply model_text_parses. exact (json_of_bytes o v d e Hw Hdo E).
 Qed.
 
-(* ------------------------------------------------------------------ the root: Do under the walk's options *)
-Lemma missing_required_known fs : forall ids,
-  missing_required fs (filter (fun id => match find_field fs id with Some _ => true | None => false end) ids) =
-  missing_required fs ids.
+(* ------------------------------------------------------------------ the root: do *)
+Definition known_of (fs : list (fmeta * tdesc)) (ids : list Z) : list Z :=
+  filter (fun id => match find_field fs id with Some _ => true | None => false end) ids.
+
+Lemma is_present_known fs ids f : In f fs -> is_present (known_of fs ids) f = is_present ids f.
 Proof.
-  intros ids. unfold missing_required. apply existsb_ext_in. intros f Hin. f_equal. f_equal.
-  induction ids as [|id ids IH]; [reflexivity|]. cbn [filter existsb].
+  intros Hin. unfold is_present, known_of. induction ids as [|id ids IH]; [reflexivity|]. cbn [filter existsb].
   destruct (find_field fs id) eqn:Ef.
   - cbn [existsb]. rewrite IH. reflexivity.
   - rewrite IH. destruct (Z.eqb_spec id (f_id (fst f))) as [->|]; [|reflexivity].
     exfalso. exact (find_field_of_in fs f Hin Ef).
 Qed.
 
-Lemma missing_required_perm fs a b : (forall x, In x a <-> In x b) -> missing_required fs a = missing_required fs b.
+Lemma is_present_in p q f : (forall x, In x p <-> In x q) -> is_present p f = is_present q f.
 Proof.
-  intros Hab. unfold missing_required. apply existsb_ext_in. intros f _. f_equal. f_equal.
-  destruct (existsb (fun id => id =? f_id (fst f)) a) eqn:Ea.
-  - apply existsb_exists in Ea. destruct Ea as (x & Hx & Hxe). symmetry. apply existsb_exists. exists x. split; [apply Hab; exact Hx|exact Hxe].
-  - destruct (existsb (fun id => id =? f_id (fst f)) b) eqn:Eb; [|reflexivity].
+  intros Hpq. unfold is_present.
+  destruct (existsb (fun id => id =? f_id (fst f)) p) eqn:Ea.
+  - apply existsb_exists in Ea. destruct Ea as (x & Hx & Hxe). symmetry. apply existsb_exists. exists x. split; [apply Hpq; exact Hx|exact Hxe].
+  - destruct (existsb (fun id => id =? f_id (fst f)) q) eqn:Eb; [|reflexivity].
     apply existsb_exists in Eb. destruct Eb as (x & Hx & Hxe).
-    assert (existsb (fun id => id =? f_id (fst f)) a = true) by (apply existsb_exists; exists x; split; [apply Hab; exact Hx|exact Hxe]).
+    assert (existsb (fun id => id =? f_id (fst f)) p = true) by (apply existsb_exists; exists x; split; [apply Hpq; exact Hx|exact Hxe]).
     congruence.
 Qed.
 
-Definition known_of (fs : list (fmeta * tdesc)) (ids : list Z) : list Z :=
-  filter (fun id => match find_field fs id with Some _ => true | None => false end) ids.
-
-(* the root loop of do is the struct loop of doRecurse when thrift base extraction and ConvertException are off
-   (error classes are not compared: both sides have no text) *)
-Lemma root_walk_plain_text o fs : o_value_mapping o = false -> o_thrift_base o && o_base_in_ctx o = false -> o_convert_exception o = false ->
-  forall vs acc seen bs,
-  spec_text (fst (root_walk o fs vs acc seen bs)) =
-  spec_text (match members_of (map (fstep o fs) vs) with
-             | inr c => TErr c
-             | inl ms => if missing_required fs (rev (known_of fs (map fst vs)) ++ seen) then TErr E_REQUIRED else TOk (EObj (rev acc ++ ms))
-             end).
+Lemma unset_walk_ext o : forall l p q, (forall f, In f l -> is_present p f = is_present q f) ->
+  unset_walk o l p = unset_walk o l q.
 Proof.
-  intros Hvm Hb Hce. induction vs as [|[id x] vs IH]; intros acc seen bs.
-  - cbn [root_walk map members_of fst known_of filter rev app]. rewrite app_nil_r. reflexivity.
-  - cbn [root_walk map members_of fst]. unfold fstep at 1. cbn [fst snd]. unfold known_of. cbn [filter].
+  induction l as [|f l IH]; intros p q H; [reflexivity|].
+  cbn [unset_walk]. rewrite (H f (or_introl eq_refl)). rewrite (IH p q (fun g Hg => H g (or_intror Hg))). reflexivity.
+Qed.
+
+(* the root loop of do = the struct loop with the response base dropped (ConvertException off); error classes are not
+   compared: both sides have no text *)
+Lemma root_walkw_text fd o fs : o_convert_exception o = false -> forall vs acc seen bs,
+  spec_text_fd fd (fst (root_walkw o fs vs acc seen bs)) =
+  spec_text_fd fd (match members_of (map (fstepw o (root_bx o) fs) vs) with
+                   | inr c => TErr c
+                   | inl ms => match unset_members o fs (rev (known_of fs (map fst vs)) ++ seen) with
+                               | inr c => TErr c
+                               | inl us => TOk (EObj (rev acc ++ ms ++ us))
+                               end
+                   end).
+Proof.
+  intros Hce. induction vs as [|[id x] vs IH]; intros acc seen bs.
+  - cbn [root_walkw map members_of fst known_of filter rev app]. reflexivity.
+  - cbn [root_walkw map members_of fst]. unfold fstepw at 1. cbn [fst snd]. unfold known_of. cbn [filter].
     destruct (find_field fs id) as [f|] eqn:Ef.
-    + rewrite Hb, Hce. cbn [andb]. unfold field_value. rewrite Hvm. cbn [andb].
-      destruct (json_of o (snd f) x) as [e|e|c]; [|reflexivity|reflexivity].
-      rewrite IH. fold (known_of fs (map fst vs)).
-      destruct (members_of (map (fstep o fs) vs)) as [ms|]; [|reflexivity].
-      cbn [rev]. rewrite <- !app_assoc. reflexivity.
+    + change (o_thrift_base o && o_base_in_ctx o && f_respbase (fst f)) with (root_bx o (fst f)).
+      destruct (root_bx o (fst f)).
+      * rewrite IH. fold (known_of fs (map fst vs)). cbn [rev]. rewrite <- !app_assoc. reflexivity.
+      * rewrite Hce. cbn [andb]. change (field_valuew o f x) with (fvalw o f x).
+        destruct (fvalw o f x) as [e|e|c]; [|reflexivity|reflexivity].
+        rewrite IH. fold (known_of fs (map fst vs)).
+        destruct (members_of (map (fstepw o (root_bx o) fs) vs)) as [ms|]; [|reflexivity].
+        cbn [rev]. rewrite <- (app_assoc (rev (known_of fs (map fst vs)))). cbn [app].
+        destruct (unset_members o fs (rev (known_of fs (map fst vs)) ++ id :: seen)) as [us|]; [|reflexivity].
+        rewrite <- app_assoc. reflexivity.
     + destruct (o_disallow_unknown o); [reflexivity|]. rewrite IH. reflexivity.
 Qed.
 
-Theorem t2j_text_is_spec_text o d v : walk_opts o = true -> t2j_text o d v = spec_text (json_of o d v).
+(* the response-base fields of the root are structs (base.BaseResp) *)
+Definition base_is_struct (d : tdesc) : Prop :=
+  match d with
+  | DStruct fs => forall f, In f fs -> f_respbase (fst f) = true -> desc_type (snd f) = T_STRUCT
+  | _ => True
+  end.
+
+Theorem walk_root_refines fd o v d n r : o_convert_exception o = false ->
+  (o_value_mapping o = true -> forall b, forallb plain (fd b) = true) ->
+  wf v = true -> conforms v d = true -> desc_wf d = true -> base_is_struct d ->
+  (depth v <= n)%nat -> (depth v <= max_skip_depth)%nat ->
+  t2j_walk_root fd o n d (encode v ++ r) = walk_spec fd (fst (t2j_specw o d v)) r.
 Proof.
-  unfold walk_opts. rewrite !andb_true_iff, !negb_true_iff. intros [[Hvm Hb] Hce].
+  intros Hce Hfd Hw Hc Hdw Hbs Hd Hs.
+  assert (Plain : forall d', (match d' with DStruct _ => False | _ => True end) -> conforms v d' = true -> desc_wf d' = true ->
+            t2j_walk_root fd o n d' (encode v ++ r) = walk_spec fd (fst (t2j_specw o d' v)) r).
+  { intros d' Hns Hc' Hdw'.
+    assert (E1 : t2j_walk_root fd o n d' (encode v ++ r) = t2j_walk_gen fd o n d' (encode v ++ r))
+      by (destruct d'; try reflexivity; destruct Hns).
+    assert (E2 : fst (t2j_specw o d' v) = json_ofw o d' v) by (destruct d'; try reflexivity; destruct Hns).
+    rewrite E1, E2. exact (walk_refines_w fd o Hfd v d' n r Hw Hc' Hdw' Hd Hs). }
+  destruct d as [t|b|fs|dk dv|s de]; try (apply Plain; auto; exact I).
+  destruct v as [ | | | | | | |vs| | | ]; try (cbn [conforms type_of] in Hc; try discriminate Hc;
+    apply andb_true_iff in Hc; destruct Hc as [Hc _]; discriminate Hc).
+  destruct n as [|n]; [cbn in Hd; lia|]. cbn [depth] in Hd. apply le_S_n in Hd.
+  cbn [t2j_walk_root t2j_specw]. cbn [encode]. rewrite <- app_assoc. cbn [app].
+  rewrite (walk_fields_ok fd o (t2j_walk_gen fd o n) (root_bx o) fs vs).
+  - unfold walk_spec. rewrite (root_walkw_text fd o fs Hce). rewrite app_nil_r. cbn [rev app].
+    unfold unset_members.
+    rewrite (unset_walk_bm_eq o fs (map fst vs) (sort_flds fs) (In_sort_flds fs)).
+    rewrite (unset_walk_ext o (sort_flds fs) (rev (known_of fs (map fst vs))) (map fst vs)).
+    2:{ intros f Hf. rewrite (is_present_in (rev (known_of fs (map fst vs))) (known_of fs (map fst vs))) by (intros x; symmetry; apply in_rev).
+        apply is_present_known. exact (In_sort_flds fs f Hf). }
+    unfold spec_text_fd.
+    destruct (members_of (map (fstepw o (root_bx o) fs) vs)) as [ms|]; [|reflexivity].
+    destruct (unset_walk o (sort_flds fs) (map fst vs)) as [us|] eqn:Eu; [|destruct (mem_finite ms); reflexivity].
+    cbn [jexp_finite to_json_fd]. rewrite forallb_app. fold (mem_finite ms). fold (mem_finite us).
+    rewrite (unset_walk_finite o _ _ us Eu), andb_true_r.
+    destruct (mem_finite ms); [|reflexivity]. rewrite print_obj. reflexivity.
+  - apply (fields_obligations fd o Hfd (root_bx o) fs vs n); auto.
+    + intros f Hin Hb. apply (Hbs f Hin). unfold root_bx in Hb. apply andb_true_iff in Hb. exact (proj2 Hb).
+    + apply Forall_forall. intros f _. apply walk_refines_w. exact Hfd.
+  - rewrite app_length. cbn [length].
+    pose proof (flat_map_length_ge (fun f : Z * tval => type_of (snd f) :: enc_int 2 (fst f) ++ encode (snd f)) vs
+      ltac:(intros; cbn [length]; lia)). lia.
+Qed.
+
+(* with the exact double lexeme: the text of do is the canonical text of the root spec t2j_specw *)
+Theorem walk_root_refines_exact o v d n r : o_convert_exception o = false ->
+  wf v = true -> conforms v d = true -> desc_wf d = true -> base_is_struct d ->
+  (depth v <= n)%nat -> (depth v <= max_skip_depth)%nat ->
+  t2j_walk_root f64_exact_lexeme o n d (encode v ++ r) = walk_res (fst (t2j_specw o d v)) r.
+Proof.
+  intros Hce Hw Hc Hdw Hbs Hd Hs.
+  rewrite (walk_root_refines f64_exact_lexeme o v d n r Hce (fun _ => exact_lexeme_plain) Hw Hc Hdw Hbs Hd Hs).
+  unfold walk_spec, walk_res. rewrite spec_text_fd_exact. reflexivity.
+Qed.
+
+(* without base extraction the root walk is doRecurse *)
+Lemma walk_root_nobase fd o n d bs : o_thrift_base o && o_base_in_ctx o = false ->
+  t2j_walk_root fd o n d bs = t2j_walk_gen fd o n d bs.
+Proof.
+  intros Hb. destruct d as [t|b|fs|dk dv|s de]; try reflexivity. destruct n as [|n]; [reflexivity|].
+  cbn [t2j_walk_root t2j_walk_gen].
+  assert (E : forall fuel c bm bs', walk_fields fd o (t2j_walk_gen fd o n) (root_bx o) fuel fs c bm bs' =
+                                    walk_fields fd o (t2j_walk_gen fd o n) (fun _ => false) fuel fs c bm bs').
+  { induction fuel as [|fuel IH]; intros c bm bs'; [reflexivity|]. cbn [walk_fields].
+    destruct bs' as [|t r]; [reflexivity|]. destruct (negb (valid_ttype t)); [reflexivity|].
+    destruct (t =? 0); [reflexivity|]. destruct (rd_int 2 r) as [[id r2]|]; [|reflexivity].
+    destruct (find_field fs id) as [fl|].
+    - unfold root_bx. rewrite Hb. cbn [andb]. cbv beta iota.
+      destruct (if o_value_mapping o && f_jsconv (fst fl) then walk_vm fd o (snd fl) r2 else t2j_walk_gen fd o n (snd fl) r2) as [[txt r3]|]; reflexivity.
+    - destruct (o_disallow_unknown o); [reflexivity|]. destruct (skip_go t r2); [apply IH | reflexivity]. }
+  rewrite E. reflexivity.
+Qed.
+
+Theorem t2j_text_is_spec_text o d v : walk_opts o = true -> o_write_default o = false -> o_write_required o = false ->
+  t2j_text o d v = spec_text (json_of o d v).
+Proof.
+  unfold walk_opts. rewrite !andb_true_iff, !negb_true_iff. intros [[Hvm Hb] Hce] Hwd Hwr.
   assert (Hfst : spec_text (fst (t2j_spec o d v)) = spec_text (json_of o d v)).
-  { unfold t2j_spec. destruct d as [t|b|fs|dk dv|s de]; try reflexivity.
+  { rewrite <- (t2j_specw_off o Hwd Hwr), <- (json_ofw_off o Hwd Hwr). rewrite <- !spec_text_fd_exact.
+    unfold t2j_specw. destruct d as [t|b|fs|dk dv|s de]; try reflexivity.
     destruct v as [ | | | | | | |vs| | | ]; try reflexivity.
-    rewrite (root_walk_plain_text o fs Hvm Hb Hce). rewrite (json_of_struct_eq o Hvm). rewrite app_nil_r.
-    destruct (members_of (map (fstep o fs) vs)) as [ms|]; [|reflexivity].
-    rewrite (missing_required_perm fs (rev (known_of fs (map fst vs))) (known_of fs (map fst vs))) by (intros x; symmetry; apply in_rev).
-    unfold known_of. rewrite missing_required_known. reflexivity. }
+    rewrite (root_walkw_text f64_exact_lexeme o fs Hce). rewrite json_ofw_struct_eq. rewrite app_nil_r. cbn [rev app].
+    assert (Em : map (fstepw o (root_bx o) fs) vs = map (fstepw o (fun _ => false) fs) vs).
+    { apply map_ext. intros iv. unfold fstepw. destruct (find_field fs (fst iv)); [|reflexivity].
+      unfold root_bx. rewrite Hb. reflexivity. }
+    rewrite Em. destruct (members_of (map (fstepw o (fun _ => false) fs) vs)) as [ms|]; [|reflexivity].
+    unfold unset_members.
+    rewrite (unset_walk_ext o (sort_flds fs) (rev (known_of fs (map fst vs))) (map fst vs)); [reflexivity|].
+    intros f Hf. rewrite (is_present_in (rev (known_of fs (map fst vs))) (known_of fs (map fst vs))) by (intros x; symmetry; apply in_rev).
+    apply is_present_known. exact (In_sort_flds fs f Hf). }
   rewrite <- Hfst. unfold t2j_text, spec_text. destruct (fst (t2j_spec o d v)); reflexivity.
 Qed.
 
 (* Do (the whole input is the message): the walk's text is the model conversion's text *)
-Theorem walk_is_t2j_text o v d n : walk_opts o = true ->
+Theorem walk_is_t2j_text o v d n : walk_opts o = true -> o_write_default o = false -> o_write_required o = false ->
   wf v = true -> conforms v d = true -> desc_wf d = true -> (depth v <= n)%nat -> (depth v <= max_skip_depth)%nat ->
   t2j_walk n o d (encode v) = match t2j_text o d v with Some txt => Some (txt, []) | None => None end.
 Proof.
-  intros Ho Hw Hc Hdw Hd Hs. rewrite (t2j_text_is_spec_text o d v Ho).
+  intros Ho Hwd Hwr Hw Hc Hdw Hd Hs. rewrite (t2j_text_is_spec_text o d v Ho Hwd Hwr).
   assert (Hvm : o_value_mapping o = false).
   { unfold walk_opts in Ho. rewrite !andb_true_iff, !negb_true_iff in Ho. tauto. }
-  rewrite <- (app_nil_r (encode v)) at 1. exact (walk_refines_exact o v d n [] Hvm Hw Hc Hdw Hd Hs).
+  rewrite <- (app_nil_r (encode v)) at 1. exact (walk_refines_exact o v d n [] Hvm Hwd Hwr Hw Hc Hdw Hd Hs).
+Qed.
+
+(* ------------------------------------------------------------------ the corollaries for all modelled options (spec json_ofw) *)
+Lemma json_ofw_not_exc o v : forall d e, json_ofw o d v <> TExc e.
+Proof.
+  intros d e H. destruct v; cbn [json_ofw] in H; try discriminate;
+  repeat match type of H with
+  | match ?x with _ => _ end = _ => destruct x; try discriminate
+  | (if ?b then _ else _) = _ => destruct b; try discriminate
+  end.
+Qed.
+
+Lemma zero_bytes d : jexp_bytes (zero_of d) = true.
+Proof.
+  destruct d as [t|b|fs|dk dv|s de]; try reflexivity.
+  cbn [zero_of]. destruct (t =? T_BOOL); [reflexivity|]. destruct (t =? T_DOUBLE); reflexivity.
+Qed.
+
+Lemma unset_walk_bytes o fs : desc_ok (DStruct fs) = true -> forall l p us, (forall f, In f l -> In f fs) ->
+  unset_walk o l p = inl us -> forallb (fun m => jbytes_okb (fst m) && jexp_bytes (snd m)) us = true.
+Proof.
+  intros Hd l p us Hl H. apply forallb_forall. intros m Hm.
+  destruct (unset_walk_sound o l p us H m Hm) as (f & Hf & -> & _).
+  cbn [fst snd]. rewrite zero_bytes, andb_true_r.
+  cbn [desc_ok] in Hd. rewrite forallb_forall in Hd. specialize (Hd f (Hl f Hf)). apply andb_true_iff in Hd. exact (proj1 Hd).
+Qed.
+
+Theorem json_ofw_bytes : forall o v d e, wf v = true -> desc_ok d = true -> json_ofw o d v = TOk e -> jexp_bytes e = true.
+Proof.
+  intros o. induction v as [b | z | z | z | z | z | s | vs IH | kt vt es IH | et es IH | et es IH] using tval_ind';
+    intros d e Hw Hd H; cbn [json_ofw] in H.
+  - inversion H; reflexivity.
+  - inversion H; reflexivity.
+  - inversion H; reflexivity.
+  - inversion H; reflexivity.
+  - inversion H. destruct (o_int642string o); reflexivity.
+  - inversion H; reflexivity.
+  - pose proof (wf_string_bytes s Hw) as Hs.
+    destruct d as [| [|] | | |]; inversion H; subst; cbn [jexp_bytes]; try exact Hs.
+    destruct (o_no_base64 o); [exact Hs|]. apply b64_encode_bytes. apply bytes_okb_Forall.
+    cbn in Hw. apply andb_true_iff in Hw. exact (proj1 Hw).
+  - destruct d as [| | fs | |]; try discriminate.
+    match type of H with match members_of ?l with _ => _ end = _ => destruct (members_of l) as [ms|] eqn:E end; [|discriminate].
+    destruct (unset_members o fs (map fst vs)) as [us|] eqn:Eu; [|discriminate]. inversion H; subst.
+    cbn [jexp_bytes]. rewrite forallb_app. apply andb_true_iff. split.
+    + apply forallb_Forall_true.
+      apply (members_of_forall _ ms (fun k e => jbytes_okb k && jexp_bytes e = true) E).
+      intros k e' Hin. apply in_map_iff in Hin. destruct Hin as (iv & Hg & Hiv).
+      destruct (find_field fs (fst iv)) as [f|] eqn:Ef; [|destruct (o_disallow_unknown o); discriminate].
+      pose proof (find_field_in _ _ _ Ef) as Hfin.
+      pose proof Hd as Hd'. cbn [desc_ok] in Hd'. rewrite forallb_forall in Hd'. specialize (Hd' f Hfin). apply andb_true_iff in Hd'. destruct Hd' as [Hk Hdf].
+      pose proof (wf_struct_fields vs Hw iv Hiv) as Hwx.
+      rewrite Forall_forall in IH.
+      destruct (o_value_mapping o && f_jsconv (fst f)).
+      * destruct (jsconv o (snd iv)) as [e1|e1|c1] eqn:Ej; inversion Hg; subst.
+        rewrite Hk. exact (jsconv_bytes o _ _ Hwx Ej).
+      * destruct (json_ofw o (snd f) (snd iv)) as [e1|e1|c1] eqn:Ej; inversion Hg; subst.
+        rewrite Hk. exact (IH iv Hiv (snd f) e' Hwx Hdf Ej).
+    + exact (unset_walk_bytes o fs Hd (sort_flds fs) (map fst vs) us (In_sort_flds fs) Eu).
+  - destruct d as [| | | dk dv |]; try discriminate.
+    match type of H with match keyed ?a ?b with _ => _ end = _ => destruct (keyed a b) as [ms|] eqn:E end; [|discriminate].
+    inversion H; subst. cbn [jexp_bytes]. apply forallb_Forall_true.
+    cbn [desc_ok] in Hd. apply andb_true_iff in Hd. destruct Hd as [Hdk Hdv].
+    rewrite Forall_forall in IH.
+    apply (keyed_forall _ _ ms (fun k e => jbytes_okb k && jexp_bytes e = true) E).
+    intros k Hk e' He'.
+    apply in_map_iff in Hk. destruct Hk as (en & Hkey & Hen).
+    apply in_map_iff in He'. destruct He' as (en' & Hval & Hen').
+    destruct (wf_map_entries _ _ _ Hw en Hen) as [Hwk _].
+    destruct (wf_map_entries _ _ _ Hw en' Hen') as [_ Hwv].
+    rewrite (key_of_bytes o _ _ Hwk Hkey).
+    exact (proj2 (IH en' Hen') dv e' Hwv Hdv Hval).
+  - destruct d as [| | | | s de]; try discriminate.
+    destruct (all_ok (map (json_ofw o de) es)) as [xs|] eqn:E; [|discriminate]. inversion H; subst.
+    cbn [jexp_bytes]. apply forallb_Forall_true.
+    apply (all_ok_forall _ xs (fun e => jexp_bytes e = true) E).
+    intros e' He'. apply in_map_iff in He'. destruct He' as (y & Hy & Hin).
+    rewrite Forall_forall in IH. exact (IH y Hin de e' (wf_set_elems _ _ Hw y Hin) Hd Hy).
+  - destruct d as [| | | | s de]; try discriminate.
+    destruct (all_ok (map (json_ofw o de) es)) as [xs|] eqn:E; [|discriminate]. inversion H; subst.
+    cbn [jexp_bytes]. apply forallb_Forall_true.
+    apply (all_ok_forall _ xs (fun e => jexp_bytes e = true) E).
+    intros e' He'. apply in_map_iff in He'. destruct He' as (y & Hy & Hin).
+    rewrite Forall_forall in IH. exact (IH y Hin de e' (wf_list_elems _ _ Hw y Hin) Hd Hy).
+Qed.
+
+Theorem walk_error_iff_w o v d n r :
+  wf v = true -> conforms v d = true -> desc_wf d = true -> (depth v <= n)%nat -> (depth v <= max_skip_depth)%nat ->
+  (t2j_walk n o d (encode v ++ r) = None <->
+   (exists c, json_ofw o d v = TErr c) \/ (exists e, json_ofw o d v = TOk e /\ jexp_finite e = false)).
+Proof.
+  intros Hw Hc Hdw Hd Hs. rewrite (walk_refines_exact_w o v d n r Hw Hc Hdw Hd Hs).
+  unfold walk_res, spec_text. destruct (json_ofw o d v) as [e|e|c] eqn:E.
+  - destruct (jexp_finite e) eqn:Ef; split.
+    + discriminate.
+    + intros [[c H]|[e' [H1 H2]]]; [discriminate|]. inversion H1; subst. rewrite Ef in H2. discriminate.
+    + intros _. right. exists e. split; [reflexivity|exact Ef].
+    + reflexivity.
+  - exfalso. exact (json_ofw_not_exc o v d e E).
+  - split; [intros _; left; exists c; reflexivity | reflexivity].
+Qed.
+
+Theorem walk_output_valid_w o v d n r txt r' :
+  wf v = true -> conforms v d = true -> desc_wf d = true -> desc_ok d = true ->
+  (depth v <= n)%nat -> (depth v <= max_skip_depth)%nat ->
+  t2j_walk n o d (encode v ++ r) = Some (txt, r') ->
+  exists e, json_ofw o d v = TOk e /\ jexp_finite e = true /\
+            txt = json_print (to_json e) /\ json_parse txt = Some (to_json e) /\ r' = r.
+Proof.
+  intros Hw Hc Hdw Hdo Hd Hs H. rewrite (walk_refines_exact_w o v d n r Hw Hc Hdw Hd Hs) in H.
+  unfold walk_res, spec_text in H. destruct (json_ofw o d v) as [e|e|c] eqn:E; try discriminate.
+  destruct (jexp_finite e) eqn:Ef; [|discriminate]. inversion H; subst.
+  exists e. split; [reflexivity|]. split; [exact Ef|]. split; [reflexivity|]. split; [|reflexivity].
+  apply model_text_parses. exact (json_ofw_bytes o v d e Hw Hdo E).
 Qed.
